@@ -411,7 +411,7 @@ impl Inner {
         Inner {
             mon,
             receiver: None,
-            cfg: Config { enable_fdt_expiration_check: false, object_timeout: None, ..Default::default() },
+            cfg: Config { enable_fdt_expiration_check: false, object_timeout: Some(Duration::from_millis(1)), ..Default::default() },
             max_pkt: 0,
             dead: false,
         }
@@ -540,6 +540,11 @@ impl Inner {
             }
             "ct" | "zmap" if t.len() == 4 => "ok".to_string(),
             "expect" if t.len() == 5 => match (t[2].parse::<u128>(), t[3].chars().next(), unhex(t[4])) {
+                (Ok(toi), Some('x'), Some(_)) => {
+                    // from here on the packets of this TOI are no longer genuine for the expected content
+                    self.mon.borrow_mut().expect.remove(&toi);
+                    "ok".to_string()
+                }
                 (Ok(toi), Some(mode), Some(b)) => {
                     self.mon.borrow_mut().expect.insert(toi, (mode, b));
                     "ok".to_string()
@@ -592,6 +597,35 @@ impl Inner {
                 }
                 let obs = self.observation();
                 self.check_terminal_by_drop();
+                obs
+            }
+            "cleanup" => {
+                // every object has been idle for longer than object_timeout (1 ms): Receiver::cleanup releases them all
+                if self.dead {
+                    return "dead".to_string();
+                }
+                std::thread::sleep(Duration::from_millis(4));
+                let rcv: *mut Receiver = self.receiver();
+                let r = guarded(std::panic::AssertUnwindSafe(move || unsafe { (*rcv).cleanup(now()) }));
+                if let Err(loc) = r {
+                    self.dead = true;
+                    self.mon.borrow_mut().fails.push(("C04:panic".to_string(), format!("Receiver::cleanup panics at {}", loc)));
+                    std::mem::forget(self.receiver.take());
+                    return "PANIC".to_string();
+                }
+                let obs = self.observation();
+                let left = self.receiver.as_ref().map(|r| r.nb_objects()).unwrap_or(0);
+                let mut m = self.mon.borrow_mut();
+                if left == 0 {
+                    let open: Vec<(u128, usize)> = m.writers.iter().filter(|w| w.st != PS::Done).map(|w| (w.toi, w.idx)).collect();
+                    for (toi, idx) in open {
+                        m.fail("C09:no-terminal-by-cleanup", format!("writer {}.{} has no terminal call although its timed-out object was released by cleanup()", toi, idx));
+                    }
+                    for w in m.writers.iter_mut() {
+                        w.st = PS::Done;
+                    }
+                }
+                drop(m);
                 obs
             }
             "probe" => {
@@ -713,7 +747,7 @@ impl Engine for OrecvEngine {
 
     fn exec(&mut self, op: &str, o: &mut Oracle) -> String {
         if self.hung {
-            return if op.starts_with("orecv pkt") || op.starts_with("orecv nop") || op.starts_with("orecv fdt") || op == "orecv drop" || op == "orecv probe" {
+            return if op.starts_with("orecv pkt") || op.starts_with("orecv nop") || op.starts_with("orecv fdt") || op == "orecv drop" || op == "orecv cleanup" || op == "orecv probe" {
                 "dead".to_string()
             } else {
                 "ok".to_string()
